@@ -7,7 +7,10 @@
    output line:  vm <R> | wasm <R>
      R = ok <e0>/<e1>/.../ pend <sorted when.clo list>       e_t = sorted closure ids executed in sample t, ',' separated
        | panic <k> <e0>/.../                                   k = sample during which the panic happens (-1: global scope); e_t for t < k
-       | fuel *)
+       | fuel
+   optional section `A ;` (only meaningful when every closure argument is a top-level function used as a value):
+   appends ` | alloc0 <R'> | alloc1 <R'>` = Sched/WasmAlloc.v a_run true under the two selectors,
+     R' = ok <f0>/<f1>/.../   (f_t = sorted function ids that actually ran in sample t)  | panic | fuel *)
 open Sched_model
 
 let rec p_of_int i = if i = 1 then XH else if i land 1 = 0 then XO (p_of_int (i / 2)) else XI (p_of_int (i / 2))
@@ -56,18 +59,26 @@ let show_pending (l : task list) : string =
   let l = List.sort compare (List.map (fun x -> (string_of_n x.when0, int_of_n x.clo)) l) in
   String.concat "," (List.map (fun (w, c) -> w ^ "." ^ string_of_int c) l)
 
+let show_codes (execs : n list list) : string =
+  String.concat "" (List.map (fun ex ->
+    String.concat "," (List.map string_of_int (List.sort compare (List.map int_of_n ex))) ^ "/") execs)
+
 let () =
   try
     while true do
       let line = input_line stdin in
       if String.trim line <> "" then begin
-        let t = ref 0 and s = ref 0 and init = ref [] and beh = ref [] and dsp = ref [] in
+        let t = ref 0 and s = ref 0 and init = ref [] and beh = ref [] and dsp = ref [] and alloc = ref false in
+        let init_raw = ref [] in
         List.iter (fun sec ->
           match split ' ' sec with
           | [] -> ()
           | "T" :: [n] -> t := int_of_string n
           | "S" :: [n] -> s := int_of_string n
-          | "I" :: toks -> init := !init @ List.map parse_init toks
+          | "A" :: _ -> alloc := true
+          | "I" :: toks -> init := !init @ List.map parse_init toks;
+              init_raw := !init_raw @ List.filter_map (fun tok -> let (a, b) = pair_of tok in
+                if a = "nan" then None else Some (z_of_string a, n_of_int (int_of_string b))) toks
           | "B" :: c :: toks -> beh := !beh @ [(n_of_int (int_of_string c), List.map parse_rule toks)]
           | "D" :: c :: toks -> dsp := !dsp @ [(n_of_int (int_of_string c), List.map parse_rule toks)]
           | k :: _ -> failwith ("bad section " ^ k)) (split ';' line);
@@ -88,7 +99,15 @@ let () =
         in
         let rv = report (fun n -> run_vm sel b d !init n) (fun w -> w.v_chan @ w.v_heap) in
         let rw = report (fun n -> run_wasm sel b d !init n) (fun w -> w.w_heap) in
-        Printf.printf "vm %s | wasm %s\n%!" rv rw
+        let extra =
+          if not !alloc then "" else
+            String.concat "" (List.map (fun (nm, sl) ->
+              let r = match a_run true sl (fresh_behaviour !beh) (fresh_dsp !dsp) [] N0 (fresh_init !init_raw) (nat_of_int !t) with
+                | Done (_, execs) -> "ok " ^ show_codes execs
+                | Panic -> "panic"
+                | OutOfFuel -> "fuel" in
+              Printf.sprintf " | %s %s" nm r) [("alloc0", sel_first); ("alloc1", sel_last)]) in
+        Printf.printf "vm %s | wasm %s%s\n%!" rv rw extra
       end
     done
   with End_of_file -> ()
